@@ -87,7 +87,16 @@ fn rel_of(s: &str) -> Option<CRelation> {
     Some(CRelation { factors, large1: l(parts[1])?, large2: l(parts[2])? })
 }
 
+/// discriminant of a computation to run FIRST into the output directory of the next `cg_full` (stale files)
+static PRERUN: std::sync::Mutex<Option<String>> = std::sync::Mutex::new(None);
+
 pub fn handle(op: &str, a: &[&str]) -> Option<String> {
+    // `cg_full_reuse D0 D threads [dbl]`: classgroup(D0) and then classgroup(D) write into the SAME output
+    // directory; the answer is that of `cg_full D threads [dbl]` (files as left by the second computation)
+    if op == "cg_full_reuse" {
+        *PRERUN.lock().unwrap_or_else(|e| e.into_inner()) = Some(a.first()?.to_string());
+        return handle("cg_full", &a[1..]);
+    }
     // optional last argument of cg_h / cg_full / cg_poly: force double large primes
     let dbl_arity = match op { "cg_h" | "cg_full" => 3, "cg_poly" => 5, _ => usize::MAX };
     if a.len() == dbl_arity {
@@ -120,6 +129,14 @@ fn handle_with(op: &str, a: &[&str], pf: Preferences) -> Option<String> {
             let _cleanup = DirGuard(dir.clone()); // also removes the directory when classgroup() panics
             let mut p = pf;
             p.outdir = Some(dir.clone());
+            if let Some(d0) = PRERUN.lock().unwrap_or_else(|e| e.into_inner()).take() {
+                let d0 = int_of(&d0)?;
+                let mut p0 = prefs();
+                p0.outdir = Some(dir.clone());
+                let _ = std::panic::catch_unwind(std::panic::AssertUnwindSafe(|| {
+                    classgroup::classgroup(&d0, &p0, None)
+                }));
+            }
             let g = classgroup::classgroup(&d, &p, tp.as_ref());
             let read = |name: &str| std::fs::read_to_string(dir.join(name)).unwrap_or_else(|_| "<missing>".into());
             let rels = read("relations.sieve");
